@@ -587,3 +587,27 @@ Theorem C14_gen_no_view_propagates_same_object_full : forall b W ri e st,
   /\ forall k, In k (p_hidden (spec_params_b b)) -> aget k (st_attrs (snd r)) = aget k (st_attrs st).
 Proof. exact gen_no_view_propagates_full. Qed.
 Print Assumptions C14_gen_no_view_propagates_same_object_full.
+
+(* ------------------------------------------------------------------ *)
+(* NO premise on the view bodies (Proofs/C14_i.v): the rendering of an exception BEGINS as the property says -- the
+   first event of invoke_exception_view is the body of the view the lookup selects (unless the policy refuses it), and
+   it sees the exception as context, request.exception and request.exc_info and no request.response; whatever that
+   body or later ones do.  Non-vacuity: Example iev_pm_first_event_nonvacuous (a world where the selected body raises
+   PredicateMismatch and the search goes on). *)
+Require Import Verif.Proofs.C14_i.
+
+Theorem C14_iev_pm_first_event : forall b W ri site rr sec e st t,
+  call_view_sec (spec_params_b b) (w_reg W) sec exc_classifier_id (exc_request (spec_params_b b) W ri e) = Ran t ->
+  sec && b_perm (body_of (w_bodies W) t) && ri_deny ri = false ->
+  exists rest, st_log (snd (iev_pm (spec_params_b b) W ri site rr sec e st))
+               = st_log st ++ EBody t e (seen_snapshot e) :: rest.
+Proof. exact iev_pm_first_event. Qed.
+Print Assumptions C14_iev_pm_first_event.
+
+Theorem C14_gen_iev_first_event : forall b W ri oth site rr sec e st t,
+  call_view_sec (spec_params_b b) (w_reg W) sec exc_classifier_id (exc_request (spec_params_b b) W ri e) = Ran t ->
+  sec && b_perm (body_of (w_bodies W) t) && ri_deny ri = false ->
+  exists rest, st_log (snd (gen_iev (spec_params_b b) W ri oth site rr sec e st))
+               = st_log st ++ EBody t e (seen_snapshot e) :: rest.
+Proof. exact gen_iev_first_event. Qed.
+Print Assumptions C14_gen_iev_first_event.
